@@ -754,7 +754,7 @@ def getattr_(I, v: Any, name: str, st, node=None) -> list:
         return [(BoundV(v, name), st)]
     if isinstance(v, ModuleV):
         mi = I.model.modules[v.dotted]
-        r = I.module_name(mi, name)
+        r = I.module_name(mi, name, st)
         if isinstance(r, Unknown):
             sub = f"{v.dotted}.{name}"
             if sub in I.model.modules:
@@ -855,6 +855,9 @@ def call_builtin(I, fv: BoundV, args: list, kwargs: dict, st, node=None) -> list
             return [(recv.translate(table), st)]
     if isinstance(recv, Ref):
         h = st.obj(recv)
+        if h.kind == "obj" and name in h.fields and isinstance(h.fields[name], (FuncV, LambdaV, BoundV, PartialV, ClassV, Opaque, Term)):
+            # a field that holds a callable:  casters.column(x)
+            return I.call(h.fields[name], list(args), dict(kwargs), st, node)
         if h.kind in ("list", "set"):
             if name in ("append", "add"):
                 list_extend(h, [args[0]]) if (h.setlike or h.kind == "set") else h.items.append(args[0])
